@@ -39,6 +39,11 @@ theorem ksqrt_pow3 (x : K) : ksqrt (x ^ 3) = x * ksqrt x := by
       rw [this]; exact mul_nonpos_of_nonneg_of_nonpos (sq_nonneg x) h.le
     rw [Real.sqrt_eq_zero_of_nonpos h3, Real.sqrt_eq_zero_of_nonpos h.le, mul_zero]
 
+/-- the same spelled as a product -/
+theorem ksqrt_mul3 (x : K) : ksqrt (x * x * x) = x * ksqrt x := by
+  have : x * x * x = x ^ 3 := by ring
+  rw [this, ksqrt_pow3]
+
 theorem ksqrt_pow5 (x : K) : ksqrt (x ^ 5) = x ^ 2 * ksqrt x := by
   unfold ksqrt
   rcases le_or_gt 0 x with h | h
